@@ -226,7 +226,7 @@ TWO_SCALE_GRIDS = [((2, 2, 1), 1), ((3, 1, 1), 1), ((4, 1, 1), 1),
                    ((3, 3, 1), 2)]
 
 
-def two_scale_config(col, cfg, family):
+def two_scale_config(col, cfg, family, pkg=True, spec=False):
     """store into s0, close, store into s1, close, close - on ONE accessor
     (what compute_dyadic_scales does); every subset of both scales in
     ascending and descending order, both strategies"""
@@ -247,7 +247,7 @@ def two_scale_config(col, cfg, family):
                                          "alternating"):
                                 vio = se.Violations()
                                 dg = se.run_two_scale(c, o0, o1, vio,
-                                                      pkg=True, spec=False,
+                                                      pkg=pkg, spec=spec,
                                                       mode=mode)
                                 runs += 1
                                 if ref is None:
